@@ -16,7 +16,7 @@ func init() {
 		ID:        "C13",
 		Level:     "model_checking",
 		Technique: "bounded exhaustive exploration of (table shape x registration(s) x registration point x render passes) on the real table with recording callbacks; the log of every atomic build step and render pass is compared with a reference event generator transcribed from the statement",
-		Rule: "shapes: header none/1/2 cells x <=2 rows each a separator or a row of 0..2 cells built detached (NewRow, Add..., AddRow); registrations: every (owner kind in table, column 0/1/2, first row, second row, first cell, header cell) x 4 times x 3 targets = 96 combinations, registered at every atomic step position (before any row, between Add calls, after attach, after everything), singly on all shapes and in ordered pairs (registered at the start or after all steps) on 12 shapes (thorough: all 63 shapes); then 1-2 render passes; " +
+		Rule: "families cell-copies (callbacks on a cell VALUE before it is stored twice, then on either live copy) and live-cell-recolumned (an attached cell copied by value into another column of the same or another table, column callbacks must follow the new column); shapes: header none/1/2 cells x <=2 rows each a separator or a row of 0..2 cells built detached (NewRow, Add..., AddRow); registrations: every (owner kind in table, column 0/1/2, first row, second row, first cell, header cell) x 4 times x 3 targets = 96 combinations, registered at every atomic step position (before any row, between Add calls, after attach, after everything), singly on all shapes and in ordered pairs (registered at the start or after all steps) on 12 shapes (thorough: all 63 shapes); then 1-2 render passes; " +
 			"clauses: refused (unsupported owner/target), once (required events exactly once, others at most once, nothing on a wrong target), order (nesting order within a pass), live (the object handed over is the one reachable through the table; properties it sets are readable afterwards); " +
 			"non-trivial = execution in which at least one callback fired; distinct by (shape, registrations, points)",
 		Assumptions: []string{
@@ -770,6 +770,11 @@ func runC13(x *X) {
 	x.Explore("cell-copies", ExploreOpts{ShardDepth: 2, Bound: "0..3 callbacks on a template cell; the cell stored twice (two rows | same row); <=3 further registrations each on either live copy; 1-2 passes"}, func(c *Chooser) {
 		c13CellCopies(x, c)
 	})
+	// a LIVE (attached) cell copied by value into another row at a different column index: column-level
+	// cell callbacks must follow the column the copy now sits in
+	x.Explore("live-cell-recolumned", ExploreOpts{ShardDepth: 2, Bound: "cell of column 1 copied by value into column 2 of a new row (same table | second table) x column callbacks {ADD, PRE, POST} registered before/after the copy x 1-2 passes"}, func(c *Chooser) {
+		c13Recolumn(x, c)
+	})
 	pairShapes := []c13Shape{{1, []int{1}}, {2, []int{2, -1}}, {-1, []int{2, 1}}, {1, []int{0, 2}}, {2, []int{2, 2}}, {-1, []int{1}}, {1, []int{-1, 1}}, {2, nil}, {1, []int{2}}, {-1, []int{-1, 2}}, {2, []int{1, 0}}, {1, []int{1, 1}}}
 	if x.Thorough() {
 		pairShapes = shapes
@@ -885,4 +890,105 @@ func c13CellCopies(x *X, c *Chooser) {
 	if k0+nlate > 0 {
 		x.Nontrivial(fmt.Sprint(c.path))
 	}
+}
+
+type c13ColRec struct {
+	name string
+	log  *[]string
+}
+
+func (r *c13ColRec) UpdateProperties(po tabular.PropertyOwner) error {
+	if cell, ok := po.(*tabular.Cell); ok {
+		loc := cell.Location()
+		*r.log = append(*r.log, fmt.Sprintf("%s@%d:%d", r.name, loc.Row, loc.Column))
+	} else {
+		*r.log = append(*r.log, r.name+"@<not a cell>")
+	}
+	return nil
+}
+
+func c13Recolumn(x *X, c *Chooser) {
+	t := tabular.New()
+	t.AddHeaders("h1", "h2")
+	t.AddRowItems("live", "other")
+	other := c.Bool() // copy into a second table instead
+	dst := tabular.Table(t)
+	if other {
+		dst = tabular.New()
+		dst.AddHeaders("g1", "g2")
+	}
+	when := 1 + c.Choose(3) // PRE, RENDER(optional), POST -> use 1 or 3; 2 treated as ADD
+	wname := map[int]string{1: "RENDER_PRECELL", 2: "ADD", 3: "RENDER_POSTCELL"}[when]
+	wi := map[int]int{1: 1, 2: 0, 3: 3}[when]
+	regFirst := c.Bool()
+	var log []string
+	reg := func() {
+		for col := 1; col <= 2; col++ {
+			if err := registerCB(dst, dst.Column(col), wi, 1, &c13ColRec{fmt.Sprintf("col%d", col), &log}); err != nil {
+				x.Fail("C13.refused", []string{"recolumn"}, "column CELL registration refused: %v", err)
+			}
+		}
+	}
+	c.Logf("t: headers(h1,h2), row(live, other); destination = %s; column callbacks at %s registered %s the copy", map[bool]string{false: "same table", true: "second table"}[other], wname, map[bool]string{true: "before", false: "after"}[regFirst])
+	if regFirst {
+		reg()
+	}
+	live, err := t.CellAt(tabular.CellLocation{Row: 1, Column: 1})
+	if err != nil {
+		panic("harness: " + err.Error())
+	}
+	r2 := tabular.NewRow()
+	r2.Add(tabular.NewCell("pad")).Add(*live)
+	log = log[:0]
+	dst.AddRow(r2)
+	c.Logf("r2 := NewRow().Add(NewCell(pad)).Add(*t.CellAt(1,1)); dst.AddRow(r2)")
+	x.Transition(3)
+	rowNum := dst.NRows()
+	tags := []string{"recolumn", "live_cell_copied_to_another_column"}
+	expect := func(what string) bool {
+		count := map[string]int{}
+		for _, e := range log {
+			count[e]++
+		}
+		want := map[string]int{fmt.Sprintf("col1@%d:1", rowNum): 1, fmt.Sprintf("col2@%d:2", rowNum): 1}
+		if what == "render" && !other {
+			want["col1@1:1"], want["col2@1:2"] = 1, 1
+		}
+		x.Clause("C13.once")
+		for k, n := range want {
+			if count[k] != n {
+				x.Fail("C13.once", tags, "%s: %s fired %d times, want %d; log %v", what, k, count[k], n, log)
+				return false
+			}
+		}
+		for k, n := range count {
+			if want[k] == 0 {
+				x.Fail("C13.once", append(tags, "unexpected_invocation"), "%s: %s fired %d times but that cell is not in that column; log %v", what, k, n, log)
+				return false
+			}
+		}
+		return true
+	}
+	if when == 2 {
+		if regFirst && !expect("AddRow") {
+			return
+		}
+		x.State(fmt.Sprint("recolumn-add", other, regFirst))
+		x.Nontrivial(fmt.Sprint(c.path))
+		return
+	}
+	if !regFirst {
+		reg()
+	}
+	passes := 1 + c.Choose(2)
+	for p := 0; p < passes; p++ {
+		log = log[:0]
+		dst.InvokeRenderCallbacks()
+		x.Transition(1)
+		if !expect("render") {
+			return
+		}
+	}
+	x.State(fmt.Sprint("recolumn", other, when, regFirst))
+	x.Nontrivial(fmt.Sprint(c.path))
 }
